@@ -141,7 +141,9 @@ func cmdCheck(args []string) int {
 	ld, err := loadProgram(loadKs, filepath.Join(workDir, "load"))
 	if err != nil {
 		fmt.Fprintln(os.Stderr, "gosym: load failed:", err)
-		writeBrokenEvidence(prop, tier, seed, "load failed: "+err.Error(), time.Since(t0).Seconds())
+		if opts["no-evidence"] == "" {
+			writeBrokenEvidence(prop, tier, seed, "load failed: "+err.Error(), time.Since(t0).Seconds())
+		}
 		return 2
 	}
 	fmt.Printf("loaded %d packages in %.1fs\n", len(ld.pkgs), ld.loadDur.Seconds())
